@@ -75,6 +75,16 @@ impl CodeAddressGenerator {
         };
 
         // If the address is not mapped to any instruction, falling back to function-range-based comparison.
+        self.find_function_address(address, search_preference)
+    }
+
+    /// Classifies `address` by the function whose original range holds it,
+    /// without looking at the instructions.
+    pub(crate) fn find_function_address(
+        &self,
+        address: usize,
+        search_preference: AddressSearchPreference,
+    ) -> CodeAddress {
         let inclusive_range_comparor = |range: &(Range<usize>, Id<Function>)| {
             // range.start < address <= range.end
             if range.0.end < address {
